@@ -127,18 +127,63 @@ pub fn style_event(s: Style, with_grid: bool) -> Value {
         }
         alt.push(c.into_bytes());
     }
+    // the io::Write path against writers that accept a few bytes per call and are interrupted in between
+    for k in [1usize, 2, 3, 7] {
+        let mut w = Chunky { max: k, calls: 0, out: Vec::new() };
+        match s.write_to(&mut w) {
+            Ok(()) => alt.push(w.out),
+            Err(_) => alt.push(b"<write_to failed on a writer that makes progress>".to_vec()),
+        }
+    }
+    {
+        // a writer without room for the last byte: the error must surface
+        let full = format!("{}", s).into_bytes();
+        if !full.is_empty() {
+            let mut buf = vec![0u8; full.len() - 1];
+            let mut slice: &mut [u8] = &mut buf;
+            if s.write_to(&mut slice).is_ok() {
+                alt.push(b"<write_to reported success although the writer was full>".to_vec());
+            }
+        }
+    }
     reset.push(format!("{:#}", s).into_bytes());
     reset.push(format!("{}", s.render_reset()).into_bytes());
     let mut w = Vec::new();
     s.write_reset_to(&mut w).unwrap();
     reset.push(w);
+    // the adapters returned by render() / render_reset() are what they are under every flag, `#` included
+    alt.push(format!("{:#}", s.render()).into_bytes());
+    reset.push(format!("{:#}", s.render_reset()).into_bytes());
     if with_grid {
         grid!(alt, s);
         grid!(alt, s.render());
+        grid_alt!(alt, s.render());
         grid_alt!(reset, s);
         grid!(reset, s.render_reset());
+        grid_alt!(reset, s.render_reset());
     }
     json!({"k":"style","st":style_json(&s),"alt":distinct(alt),"reset":distinct(reset)})
+}
+
+/// accepts at most `max` bytes per call; every third call is interrupted
+struct Chunky {
+    max: usize,
+    calls: usize,
+    out: Vec<u8>,
+}
+impl std::io::Write for Chunky {
+    fn write(&mut self, b: &[u8]) -> std::io::Result<usize> {
+        self.calls += 1;
+        if self.calls % 3 == 2 {
+            return Err(std::io::ErrorKind::Interrupted.into());
+        }
+        let n = b.len().min(self.max);
+        self.out.extend_from_slice(&b[..n]);
+        Ok(n)
+    }
+    fn flush(&mut self) -> std::io::Result<()> {
+        Ok(())
+    }
 }
 
 pub fn color_event(c: Color, slot: &str, with_grid: bool) -> Value {
@@ -208,6 +253,17 @@ pub fn gen_color(r: &mut crate::rng::Rng) -> Option<Color> {
 
 pub fn gen_style(r: &mut crate::rng::Rng) -> Style {
     let e = if r.chance(1, 3) { effects_from_bits(1 << r.below(12)) } else { effects_from_bits((r.next() & 0xfff) as u16) };
+    if r.chance(1, 4) {
+        // the SAME colour value in two or three slots (slots are independent: none may be derived from another)
+        let c = gen_color(r);
+        let other = gen_color(r);
+        return match r.below(4) {
+            0 => Style::new().effects(e).fg_color(c).bg_color(other).underline_color(c),
+            1 => Style::new().effects(e).fg_color(c).bg_color(c).underline_color(other),
+            2 => Style::new().effects(e).fg_color(other).bg_color(c).underline_color(c),
+            _ => Style::new().effects(e).fg_color(c).bg_color(c).underline_color(c),
+        };
+    }
     Style::new().effects(e).fg_color(gen_color(r)).bg_color(gen_color(r)).underline_color(gen_color(r))
 }
 
